@@ -8,16 +8,23 @@
 EXTENDS Auth, Json
 
 CONSTANTS Versions,    \* room versions to enumerate
-          Family,      \* "member_self" | "member_restricted" | "member_other" | "member_tpi" | "structure" | "generic" | "create" | "pl1" | "pl2"
+          Family,      \* "member_self" | "member_restricted" | "member_other" | "member_tpi" | "structure" | "generic" | "create" | "versions" | "pl0" .. "pl3" | "plnames" | "placcess"
           PLDepth      \* value set size for the pl2 family: "small" | "full"
 
 VersionsQuick == {"1", "6", "8", "10", "12"}
 VersionsAll == AllVersions
 VersionsPL2Quick == {"6", "12"}
 
-VARIABLES ver, st, ev, phase, verdict, noesc
+VersionsAccessQuick == {"1", "10", "12"}      \* the three event formats / room-ID schemes
 
-vars == <<ver, st, ev, phase, verdict, noesc>>
+VARIABLES ver, st, ev, phase, verdict, noesc,
+          pre,       \* what the caller does with the public accessors around the check (NoPre: nothing)
+          ccopy,     \* the caller's copy of a power-levels content, as edited by the caller
+          verdict0   \* the verdict of a check made BEFORE the caller's edit ("na": no such check)
+
+vars == <<ver, st, ev, phase, verdict, noesc, pre, ccopy, verdict0>>
+
+NoPre == [route |-> "none", edit |-> "none", order |-> "none"]
 
 M7 == {"absent", "join", "invite", "leave", "ban", "knock", "garbage"}
 NewM == Memberships \cup {"garbage", "missing"}
@@ -239,6 +246,32 @@ InitPL0 ==
              /\ st = WithPL(s0, EmptyPL)
              /\ ev = [PLEv([SetKey(EmptyPL, k, n) EXCEPT !.users["creator"] = cu]) EXCEPT !.sender = sender]
 
+\* ---- placcess: the caller reads a power-levels content through a public accessor and EDITS what it got ------------
+\* The usual read-modify-write: the current levels are read (PDU.PowerLevels() of the current power-levels event,
+\* NewPowerLevelContentFromEvent, NewPowerLevelContentFromAuthEvents), the result is edited into the next content, the
+\* proposed event is built from it and Allowed() is asked - with that same current event object among the auth events.
+\* What an accessor returns is the caller's COPY (variable ccopy): editing it changes neither the auth state nor the
+\* judged event (action CallerEdit leaves st and ev unchanged), so verdict and NoEsc are those of the scenario without
+\* the edit.  Routes "state.*" read the current power-levels event, "event.*" the judged one; orders: "ec" edit then
+\* check, "cec" check, edit, check again (both checks give the same verdict).
+AccessRoutes == {"state.PowerLevels", "state.FromEvent", "state.FromAuthEvents", "event.PowerLevels", "event.FromEvent"}
+
+\* what the caller turns its copy into
+EditedCopy(kind, route, s0, e0) ==
+    CASE kind = "to_other" -> IF route \in {"state.PowerLevels", "state.FromEvent", "state.FromAuthEvents"} THEN e0.newpl ELSE s0.pl.c
+      [] kind = "wipe" -> EmptyPL                                            \* every entry deleted, every threshold 0
+      [] kind = "lift" -> [EmptyPL EXCEPT !.users[e0.sender] = 4]            \* ... and the sender at the top
+      [] OTHER -> EmptyPL
+
+InitPLAccess ==
+    \E k \in PLKeys, o \in PLValsSmall, n \in PLValsSmall, route \in AccessRoutes,
+       mode \in {<<"to_other", "ec">>, <<"to_other", "cec">>, <<"wipe", "ec">>, <<"lift", "ec">>} :
+       /\ o # n
+       /\ (route \in {"state.FromEvent", "event.FromEvent"} => mode = <<"to_other", "ec">>)
+       /\ st = WithPL(WithMem(BaseSt, "alice", "join"), SetKey(BasePL(2), k, o))
+       /\ ev = PLEv(SetKey(BasePL(2), k, n))
+       /\ pre = [route |-> route, edit |-> mode[1], order |-> mode[2]]
+
 \* ---- versions: every version-sensitive rule, for ALL registered versions (also in the quick tier) ----------
 InitVersionEdges ==
     LET joined == WithMem(WithMem(BaseSt, "bob", "join"), "creator", "join")
@@ -274,6 +307,8 @@ InitVersionEdges ==
 Init ==
     /\ ver \in (IF Family = "versions" THEN AllVersions ELSE Versions)
     /\ phase = "scenario" /\ verdict = FALSE /\ noesc = TRUE
+    /\ ccopy = EmptyPL /\ verdict0 = "na"
+    /\ (IF Family = "placcess" THEN TRUE ELSE pre = NoPre)
     /\ CASE Family = "member_self" -> InitMemberSelf
          [] Family = "member_restricted" -> InitMemberRestricted
          [] Family = "member_other" -> InitMemberOther
@@ -287,16 +322,33 @@ Init ==
          [] Family = "pl2" -> InitPL2
          [] Family = "pl3" -> InitPL3
          [] Family = "plnames" -> InitPLNames
+         [] Family = "placcess" -> InitPLAccess
 
-\* one action: the check itself (Allowed is a pure function of the scenario)
+\* the check itself (Allowed is a pure function of the scenario); with a caller's edit it comes after the edit
 Check ==
-    /\ phase = "scenario"
+    /\ phase = (IF pre.route = "none" THEN "scenario" ELSE "edited")
     /\ phase' = "done"
     /\ verdict' = Allowed(ver, st, ev)
     /\ noesc' = IF ev.type = "pl" THEN NoEsc(ver, st, ev) ELSE TRUE
-    /\ UNCHANGED <<ver, st, ev>>
+    /\ UNCHANGED <<ver, st, ev, pre, ccopy, verdict0>>
 
-Next == Check
+\* order "cec": a first check before the caller touches anything
+CheckBefore ==
+    /\ phase = "scenario" /\ pre.order = "cec"
+    /\ phase' = "checked"
+    /\ verdict0' = IF Allowed(ver, st, ev) THEN "t" ELSE "f"
+    /\ UNCHANGED <<ver, st, ev, pre, ccopy, verdict, noesc>>
+
+\* the caller reads a content through the accessor named by pre.route and edits ITS COPY: the auth state and the
+\* judged event are not the caller's to change through it
+CallerEdit ==
+    /\ pre.route # "none"
+    /\ phase = (IF pre.order = "cec" THEN "checked" ELSE "scenario")
+    /\ phase' = "edited"
+    /\ ccopy' = EditedCopy(pre.edit, pre.route, st, ev)
+    /\ UNCHANGED <<ver, st, ev, pre, verdict, noesc, verdict0>>
+
+Next == Check \/ CheckBefore \/ CallerEdit
 Spec == Init /\ [][Next]_vars
 
 (***************************************************************************)
@@ -314,6 +366,9 @@ MixedNeverPass == (phase = "done" /\ st.mixedrooms) => ~verdict
 \* C09: the verdict only depends on the state the event needs
 OnlyNeededState == phase = "done" => verdict = Allowed(ver, RestrictTo(st, Needed(ev)), ev)
 
+\* accessor results are copies: a check made before the caller's edit and the one made after it agree
+EditChangesNothing == (phase = "done" /\ verdict0 # "na") => (verdict0 = "t") = verdict
+
 Emit == phase = "done" =>
-          PrintT(ToJson([ver |-> ver, st |-> st, ev |-> ev, want |-> verdict, noesc |-> noesc, fam |-> Family]))
+          PrintT(ToJson([ver |-> ver, st |-> st, ev |-> ev, want |-> verdict, noesc |-> noesc, fam |-> Family, pre |-> pre]))
 =============================================================================
